@@ -34,6 +34,7 @@ pub fn def() -> CheckDef {
         cpu_limit_s: 120,
         fault_kinds: "initial disk image written by a foreign implementation (layout plan drawn per case)",
         count_subruns: false,
+        expect_probes: &["difat_sector", "fat_sectors>=2", "red_nodes", "free_sectors_present", "unallocated_entries_present", "node_with_two_siblings"],
     }
 }
 
